@@ -19,6 +19,8 @@ const accessMemGuide = "https://github.com/tencent/goom"
 func WriteTo(addr uintptr, data []byte) error {
 	memoryAccessLock.Lock()
 	defer memoryAccessLock.Unlock()
+	verifHook("mem.locked", addr, uintptr(len(data)))
+	defer verifHook("mem.unlocking", addr, uintptr(len(data)))
 
 	f := RawAccess(addr, len(data))
 	if err := mProtectCrossPage(addr, len(data), syscall.PROT_READ|syscall.PROT_WRITE|syscall.PROT_EXEC); err != nil {
@@ -28,10 +30,13 @@ func WriteTo(addr uintptr, data []byte) error {
 		}
 		errorDetail(err)
 	}
+	verifHook("mem.rwx", addr, uintptr(len(data)))
 	copy(f, data[:])
+	verifHook("mem.copied", addr, uintptr(len(data)))
 	if err := mProtectCrossPage(addr, len(data), syscall.PROT_READ|syscall.PROT_EXEC); err != nil {
 		errorDetail(err)
 	}
+	verifHook("mem.rx", addr, uintptr(len(data)))
 	return nil
 }
 
